@@ -55,12 +55,12 @@ func (g *Engine) findingStatus(id string) string {
 
 var initAllowStd = map[string]bool{
 	"errors": true, "io": true, "bytes": true, "sort": true, "encoding/binary": true, "math": true, "math/bits": true,
-	"strconv": true, "unicode/utf8": true, "strings": true, "slices": true, "cmp": true, "encoding/hex": true,
+	"strconv": true, "unicode/utf8": true, "io/ioutil": true, "strings": true, "slices": true, "cmp": true, "encoding/hex": true,
 }
 
 var denyPkgs = map[string]bool{
 	"os": true, "syscall": true, "runtime": true, "reflect": true, "internal/reflectlite": true, "os/exec": true,
-	"fmt": true, "log": true, "time": true, "sync": true, "sync/atomic": true, "unsafe": true, "internal/poll": true,
+	"fmt": true, "log": true, "sync": true, "sync/atomic": true, "unsafe": true, "internal/poll": true,
 	"encoding/json": true, "testing": true,
 }
 
@@ -182,6 +182,7 @@ type Stats struct {
 	UnknownFeas   int
 	FactPruned    int
 	FreshQueries  int
+	OpaqueInts    int
 	AssertConst   int
 	AssertUnsat   int
 	Obligations   int
@@ -217,6 +218,7 @@ func (s *Stats) merge(o *Stats) {
 	s.UnknownFeas += o.UnknownFeas
 	s.FactPruned += o.FactPruned
 	s.FreshQueries += o.FreshQueries
+	s.OpaqueInts += o.OpaqueInts
 	s.AssertConst += o.AssertConst
 	s.AssertUnsat += o.AssertUnsat
 	s.Obligations += o.Obligations
